@@ -113,12 +113,13 @@ function runOne (code, hooksMode, seed, kind) {
   vm.runInContext("Function.prototype.toString = function () { return 'function () { [code] }' }", ctx)
   let outcome
   try {
-    const script = new vm.Script(code, { filename: 'prog.js' })
+    const dyn = (spec) => { w.log.push('import:' + w.show(spec)); return Promise.reject(new Error('no module loader in the sandbox')) }
+    const script = new vm.Script(code, { filename: 'prog.js', importModuleDynamically: dyn })
     const r = script.runInContext(ctx, { timeout: 500 })
     let value = r
     if (typeof sandbox.main === 'function' || typeof vm.runInContext('typeof main', ctx) === 'string') {
       const has = vm.runInContext('typeof main === "function"', ctx)
-      if (has) value = vm.runInContext('main.call(o, a, b, c)', ctx, { timeout: 500 })
+      if (has) value = vm.runInContext('main.call(o, a, b, c)', ctx, { timeout: 500, importModuleDynamically: dyn })
     }
     outcome = 'value:' + w.show(value)
   } catch (e) {
@@ -132,6 +133,8 @@ function runOne (code, hooksMode, seed, kind) {
   return { outcome, log, coerce: w.coerce.slice().sort(), hooks: hookLog }
 }
 
+// `import(x)` inside a sandboxed script yields a rejected promise: an observable event, never a crash
+process.on('unhandledRejection', () => {})
 const jobs = JSON.parse(fs.readFileSync(process.argv[2], 'utf8'))
 const out = []
 for (const j of jobs) {
